@@ -16,7 +16,7 @@ from lib.tlcrun import run_tlc
 
 def mc_cfg(repaired, bytecode, crashes, procs="MC_Procs", files="MC_AllShapes", hist=False):
     return ("SPECIFICATION %s\nCONSTANTS Procs <- %s Decls <- MC_Decls SizeOf <- MC_SizeOf InitFiles <- %s\n"
-            "CONSTANTS Repaired = %s BytecodeOn = %s MaxCrashes = %d MaxSec = 1\nINVARIANT Inv_C16_Safe\nINVARIANT Inv_C15_Reuse\n%s" % (
+            "CONSTANTS Repaired = %s BytecodeOn = %s MaxCrashes = %d MaxSec = 1 Sequential = FALSE Order <- MC_Order\nINVARIANT Inv_C16_Safe\nINVARIANT Inv_C15_Reuse\n%s" % (
                 "SpecH" if hist else "Spec", procs, files, "TRUE" if repaired else "FALSE", "TRUE" if bytecode else "FALSE", crashes,
                 "INVARIANT Emit\n" if hist else "INVARIANT Inv_Publish\n"))
 
